@@ -149,7 +149,7 @@ def numberValid (first : Char) (base : Nat) (ds : List Char) : Bool :=
 def signOnly (c : Char) (rest : List Char) : Option TokenKind :=
   match rest with
   | c2 :: _ => if !isAsciiDigit c2 then (if c == '+' then some .Plus else if c == '-' then some .Minus else none) else none
-  | [] => none
+  | [] => if c == '+' then some .Plus else if c == '-' then some .Minus else none
 
 /-- base detection: (base, consumed prefix, remaining) -/
 def numPrefix (c : Char) (rest : List Char) : Nat × List Char × List Char :=
